@@ -67,7 +67,18 @@ func mavenCore(s string) bool {
 var findingClasses = []findingClass{
 	// composer: a stability flag (@dev, @RC, ...) selects by stability, not by position in the order
 	{"F-composer-stability-flag", "C20", "composer", func(kind string, rng string, vs []string) bool {
-		return kind == "not-convex" && strings.Contains(rng, "@")
+		// the recorded finding is the BARE flag (a constraint that is only "@dev", "@RC", ">=@dev"): it
+		// selects by stability.  A flag behind a version ("1.0@beta", ">=1.0@beta") is not in the
+		// class: on the recorded tree it denotes a point
+		if kind != "not-convex" {
+			return false
+		}
+		for _, tok := range strings.FieldsFunc(rng, func(r rune) bool { return r == ' ' || r == ',' || r == '|' || r == '\t' }) {
+			if strings.HasPrefix(strings.TrimLeft(tok, "<>=!~^"), "@") {
+				return true
+			}
+		}
+		return false
 	}},
 	// composer: the literal text "1.0b1" is special-cased in matchesCaret, so padding it matters
 	{"F-composer-caret-text-case", "C18", "composer", func(kind string, rng string, vs []string) bool {
